@@ -803,3 +803,68 @@ def _cook_exit(E, outcome, value, env, prefix):
 contract(ST + '.cook', variant='C01',
          params=dict(self=Obj(ST, lazy=True, fields={'raw': Str()})),
          exit_hook=_cook_exit, uses=[PA], raises=['ParseError'])
+
+
+# ------------------------------------------------------------------ C07: what the %(...) syntax accepts as tag arguments
+def epfs_arguments():
+    """the three syntaxes take the same attribute text: in <dtml-...> and <!--#...--> a double-quoted value may contain any
+    character but a double quote (new lines and '>' / ')' included: scanner clauses dtml_tag_ends_outside_quotes).  For the
+    %(...) syntax the same is a statement about the language of the ``args`` group of String.tagre, decided as a
+    regular-language inclusion on the pattern read from the source: every text of the form (unquoted run, optional "quoted
+    value")* is accepted as arguments."""
+    import re as _re
+    import z3 as _z3
+    from pyvc.engine import Engine
+    from pyvc.builtins_ import regex_to_z3
+    from pyvc import smt
+    E = Engine(REGISTRY)
+    tag = E.lookup_qual(ST + '.tagre')
+    node = getattr(tag, 'fn', tag).node
+    consts = [x.value for x in ast.walk(node) if isinstance(x, ast.Constant) and isinstance(x.value, str) and x.value
+              and x is not getattr(node.body[0], 'value', None)]
+    pattern = ''.join(consts)
+    oid = 'C07.epfs.arguments_accept_every_quoted_value'
+
+    def res(status, detail, be='z3'):
+        return [dict(oid=oid, kind='structural', status=status, paths=1, backends=[be], ms=0, model=None, detail=detail, havoced=False)]
+    i = pattern.find('(?P<args>')
+    if i < 0:
+        return res('undecided', 'String.tagre has no group named args (pattern %r)' % pattern, 'ast')
+    depth, j = 0, i
+    while j < len(pattern):
+        ch = pattern[j]
+        if ch == '\\':
+            j += 2
+            continue
+        if ch == '[':
+            k = pattern.find(']', j + 2)
+            j = (k if k >= 0 else j) + 1
+            continue
+        if ch == '(':
+            depth += 1
+        elif ch == ')':
+            depth -= 1
+            if depth == 0:
+                break
+        j += 1
+    args_src = pattern[i + len('(?P<args>'):j]
+    ref = r'([^\)"]+("[^"]*")?)*'
+    try:
+        a, b = regex_to_z3(ref), regex_to_z3(args_src)
+    except Exception:  # noqa
+        a = b = None
+    if a is None or b is None:
+        return res('undecided', 'the args pattern %r is outside the class of patterns translated to regular expressions' % args_src, 'ast')
+    w = _z3.String('w')
+    v, m, be = smt.check([_z3.InRe(w, a), _z3.Not(_z3.InRe(w, b))], want_model=True)
+    if v == 'unsat':
+        return res('discharged', 'every attribute text (unquoted run, optional "quoted value")* -- a quoted value being any text without a '
+                                 'double quote, line breaks included -- is accepted by the args group %r of String.tagre' % args_src, be)
+    if v == 'sat':
+        try:
+            wit = m[w].as_string() if hasattr(m, '__getitem__') else str(m)
+        except Exception:  # noqa
+            wit = str(m)
+        return res('refuted', 'the %%(...) syntax rejects attribute text the other two syntaxes accept: %r is not matched by the args '
+                              'group %r' % (wit, args_src), be)
+    return res('undecided', 'solver unknown on the regular-language inclusion for %r' % args_src, be)
